@@ -129,6 +129,21 @@ def main():
             dig[1] += unhex(w[1]); r = "ok"
         elif w == ["d.fin"] and dig and not dig_done:
             dig_done = True; r = hexs(H(dig[0], dig[1]))
+        elif len(w) == 4 and w[0] == "d.long" and w[1] in NAMES and nat(w[2]) is not None and nat(w[3]) is not None \
+                and nat(w[2]) <= 8589934592 and nat(w[3]) <= 255:
+            # long-message family: byte j = (j % 251 + seed) & 0xff, 1 MiB at a time
+            total, seed = nat(w[2]), nat(w[3])
+            n, rl = NAMES[w[1]]
+            h = hashlib.new(n)
+            CH = 1048576
+            pat = bytes((i % 251 + seed) & 0xff for i in range(251)) * (CH // 251 + 3)
+            off = 0
+            while off < total:
+                k = min(CH, total - off)
+                o = off % 251
+                h.update(memoryview(pat)[o:o + k])
+                off += k
+            r = hexs(h.digest(rl) if n.startswith("shake") else h.digest())
         elif w == ["d.reset"] and dig:
             dig[1] = b""; dig_done = False; r = "ok"
         elif len(w) == 3 and w[0] == "h.new" and w[1] in NAMES and unhex(w[2]) is not None:
